@@ -752,7 +752,30 @@ def token_domain(ctx):
         return False, 'no `Token(n) if n <= u16::MAX` arm'
     if names[-1] != '_':
         return False, 'last arm is not the wildcard'
+    ok, why, _ = token_values(ctx)
+    if not ok:
+        return False, why
     return True, 'registered tokens {STREAM, HEARTBEAT, ALLOC_CHANNEL, SET_BLOCKED_TX, Token(0), Token(u16 as usize)} all have arms (%d registration sites)' % len(regs)
+
+
+SPECIAL_TOKENS = ('io_loop::STREAM', 'io_loop::HEARTBEAT', 'io_loop::ALLOC_CHANNEL', 'io_loop::SET_BLOCKED_TX')
+
+
+def token_values(ctx):
+    """The evaluated values of the I/O loop's own tokens: pairwise distinct and outside the range
+    Token(0) / Token(id as usize) (id: u16) used for channel queues."""
+    vals = {}
+    for c in SPECIAL_TOKENS:
+        k = ctx.const(c)
+        if k.get('ty') != 'mio::Token' or k.get('bits') is None:
+            return False, '%s is not an evaluated mio::Token constant' % c, vals
+        vals[c] = int(k['bits'])
+    for c, v in vals.items():
+        if v <= 0xFFFF:
+            return False, '%s = Token(%d) collides with the token of channel id %d' % (c, v, v), vals
+    if len(set(vals.values())) != len(vals):
+        return False, 'two event sources share a token: %s' % vals, vals
+    return True, 'special tokens %s all > u16::MAX and pairwise distinct' % vals, vals
 
 
 def registrations(ctx):
